@@ -728,3 +728,56 @@ def rule_walk(P) -> RuleResult:
         else:
             res.fail(mw.fq, 'walk:method', f'Node.walk() is walk(self); found `{show(v)[:80]}`', loc(mw))
     return res
+
+
+# ----------------------------------------------------------------------
+# R-COMPILEFN (C09, C20): every compilation has a compiler of its own
+
+def rule_compilefn(P) -> RuleResult:
+    """compiler.compile(context, statement, parameters) on terms: a Compiler made in this call for this context compiles this
+    statement with these parameters; Compiler.__init__ keeps the context and starts name resolution at the connection's postings table.
+    The compiler object holds the per-statement state (current table, parameters, placeholder numbering): one per call means that
+    neither an earlier statement nor a concurrent one can be seen in it."""
+    from ..symex import Sym, T, Engine, show
+    res = RuleResult('R-COMPILEFN')
+    res.exhaustive = True
+    m = P.module('beanquery.compiler')
+    cf = m.toplevel_funcs.get('compile')
+    comp = m.classes.get('Compiler')
+    if not cf or comp is None or '__init__' not in comp.methods:
+        raise AnalysisError('anchor vanished: compiler.compile / Compiler.__init__')
+    fi = cf[-1]
+    CTX, ST, PR = Sym('CONTEXT'), Sym('STATEMENT'), Sym('PARAMETERS')
+
+    def on_call(fn, fv, rc, a, k, ex, nd):
+        f = str(fn)
+        if f.split('.')[-1] == 'Compiler':
+            return T('new', ('Compiler', tuple(a), tuple(k)))
+        if f.split('.')[-1] == 'compile' and isinstance(rc, T) and rc.op == 'new':
+            return T('compiled-by', (rc, tuple(a), tuple(k)))
+        return NotImplemented
+    n = 0
+    for p in Engine(P, on_call=on_call, max_depth=0).paths(fi, {fi.params[0]: CTX, fi.params[1]: ST, fi.params[2]: PR}):
+        n += 1
+        v = p.value
+        good = p.outcome == 'return' and not p.decisions and isinstance(v, T) and v.op == 'compiled-by' and \
+            v.args[0] == T('new', ('Compiler', (CTX,), ())) and list(v.args[1]) + [x for _, x in v.args[2]] == [ST, PR]
+        if good:
+            res.ok({'function': fi.fq, 'is': 'Compiler(context).compile(statement, parameters)', 'compiler': 'made in the call'})
+        else:
+            res.fail(fi.fq, 'compilefn:compiler', f'compile(context, statement, parameters) must compile with a Compiler made in this call for this '
+                     f'context: Compiler(context).compile(statement, parameters); found `{show(v)[:120]}`', loc(fi))
+    if n == 0:
+        raise AnalysisError(f'{fi.fq}: no path on terms')
+    init = comp.methods['__init__']
+    SELF = Sym('COMPILER')
+    for p in Engine(P, max_depth=0).paths(init, {'self': SELF, init.params[1]: CTX}):
+        ctx = p.heap.get(T('attr', (SELF, 'context')))
+        tb = p.heap.get(T('attr', (SELF, 'table')))
+        want_tb = (T('call', ('CONTEXT.tables.get', ('postings',), ())), T('item', (T('attr', (CTX, 'tables')), 'postings')))
+        if p.decisions or ctx != CTX or tb not in want_tb:
+            res.fail(init.fq, 'compilefn:init', f'a new compiler keeps the connection it compiles for and resolves names in its `postings` table '
+                     f'until a FROM clause says otherwise; found context=`{show(ctx)[:40]}`, table=`{show(tb)[:60]}`', loc(init))
+        else:
+            res.ok({'constructor': init.fq, 'context': 'kept', 'default_table': "context.tables.get('postings')"})
+    return res
